@@ -296,7 +296,9 @@ func isNilType(t types.Type) bool {
 
 // selectPath follows a field selection path (with implicit dereferences) from value v of type t.
 func (e *specEnv) selectPath(n ast.Node, v Val, t types.Type, path []int) Val {
+	interior := false
 	for _, idx := range path {
+		interior = false
 		switch u := t.Underlying().(type) {
 		case *types.Pointer:
 			st := u.Elem().Underlying().(*types.Struct)
@@ -309,7 +311,7 @@ func (e *specEnv) selectPath(n ast.Node, v Val, t types.Type, path []int) Val {
 				// keep as interior pointer for further selection; load lazily
 				v = addr
 				t = types.NewPointer(f.Type())
-				// mark: value is address of embedded struct
+				interior = true
 				continue
 			}
 			v = e.x.load(e.cur, addr, f.Type())
@@ -329,7 +331,7 @@ func (e *specEnv) selectPath(n ast.Node, v Val, t types.Type, path []int) Val {
 		}
 	}
 	// if we ended on an interior pointer to an embedded struct, materialise the struct value
-	if pt, ok := t.(*types.Pointer); ok && v.K == VPtr {
+	if pt, ok := t.(*types.Pointer); ok && v.K == VPtr && interior {
 		if _, isStruct := pt.Elem().Underlying().(*types.Struct); isStruct && len(path) > 0 {
 			// was the selected field itself a struct (by value)? then load it
 			return e.x.load(e.cur, v, pt.Elem())
@@ -428,6 +430,9 @@ func (e *specEnv) callExpr(c *ast.CallExpr) Val {
 				// typeIs(x, (*T)(nil)) : dynamic type of interface x equals static type of second argument
 				v := e.expr(c.Args[0])
 				return scalar(Eq(v.Fs[0].T, e.x.typeTag(e.typeOf(c.Args[1]))), types.Typ[types.Bool])
+			case "sends":
+				ch := e.expr(c.Args[0])
+				return scalar(Select(e.cur.arr("X:sends", BV(64)), ch.T), types.Typ[types.Int])
 			case "isNew":
 				v := e.expr(c.Args[0])
 				switch v.K {
